@@ -22,6 +22,7 @@ RULE += ("  Also: trigger kind 'trust-region point followed by a second-order co
 RULE += (" Requests are judged with the settings as the user STATED them (not the solver's completed options); family tinyviol: a constraint violated by exactly 5e-16 (injected) with tolerance 0.")
 RULE += (' NaN objective values with ordinary targets (-50, 0.5, 50, 1e6).')
 RULE += (" Family ulptarget: the target is a record that improves on the previous one by at most 64 ulps.")
+RULE += (" Family userstop: a user function raising StopIteration is no stopping request; target placements on problems whose constraint is undefined at early evaluations.")
 ASSUMPTIONS = [
     "the solver is deterministic (C11), so the rerun reproduces evaluations "
     "1..k bitwise; this is itself verified (prefix comparison) and a mismatch "
@@ -35,7 +36,8 @@ REQUIRED = {"eval.post": 1000, "triggered_reruns": 100, "kind:tr": 10,
 MIN_NONTRIVIAL = {"quick": 15, "thorough": 60}
 PLAN = [("target", 450, 7000), ("callback", 350, 5000), ("feas", 250, 4000),
         ("multi", 150, 2500), ("soc", 400, 5000), ("bartarget", 150, 2000),
-        ("tinyviol", 60, 600), ("ulptarget", 60, 800)]
+        ("tinyviol", 60, 600), ("ulptarget", 60, 800),
+        ("userstop", 60, 600)]
 
 EPS = np.finfo(float).eps
 
@@ -163,8 +165,49 @@ def run_case(case, judge="c09"):
                     10.0 ** rng.uniform(-11, -8))}}
         force_kind = "ulp"
         fam = "target"
+    elif fam == "userstop":
+        # a USER FUNCTION (not the callback) raises StopIteration at some
+        # evaluation - an exhausted iterator in the user's code: no stopping
+        # request was made, so the run must not report one (status 3); the
+        # exception is the user's and propagates
+        spec = base_spec(rng, "target")
+        if spec["obj"]["kind"] == "none":
+            spec["obj"] = gen.objective(rng, spec["n"], ("quad", "abs"))
+        tgt = "con" if spec.get("nl") and rng.random() < 0.5 else "obj"
+        f = {"target": tgt, "val": "raise_stop",
+             "when": {"idx": [int(rng.integers(0, 30))]}}
+        if tgt == "con":
+            f["j"] = 0
+            f["comp"] = None
+        spec["faults"] = [f]
+        if rng.random() < 0.4:
+            spec["callback"] = {"conv": str(rng.choice(["kw", "pos"]))}
+        rec = mrun.run(spec)
+        counts = e2e.base_counts(rec)
+        counts["userstop_runs"] = 1
+        viols = []
+        if rec.res is not None and rec.res.status == 3:
+            viols.append(oracles.V(
+                "status_without_event",
+                f"status 3 (callback requested a stop) after {rec.res.nfev} "
+                f"evaluations, but no callback ever raised StopIteration: "
+                f"the {tgt} function did, at evaluation "
+                f"{f['when']['idx'][0] + 1}", mechanism="user_stopiteration"))
+        return e2e.record(case, e2e.attach(viols, spec, rec),
+                          nt="userstop|%s|%s" % (tgt, "exc" if rec.exc
+                                                 is not None else "res"),
+                          tags=["fam:userstop"], counts=counts)
     else:
         spec = base_spec(rng, fam)
+        if fam == "target" and spec.get("nl") and rng.random() < 0.3:
+            # undefined constraint values at some early evaluations: such a
+            # point never satisfies a request and is not what a later stop
+            # returns
+            spec["faults"] = [{"target": "con", "j": 0, "comp": None,
+                               "val": "nan", "when": {"idx": sorted(set(
+                                   int(v) for v in rng.integers(
+                                       0, 10, int(rng.integers(1, 4)))))}}]
+            spec["trigger_note"] = "con_nan_early"
     dry = mrun.run(spec)
     counts = e2e.base_counts(dry)
     tags = ["fam:" + case["fam"]]
